@@ -504,6 +504,9 @@ func CheckC08Stepwise(sc Scenario, rec *Rec) error {
 		n := len(pop.Organisms)
 		for i, o := range pop.Organisms {
 			o.Fitness = fitnessOf(sc.Fit, e, i, n, o.Genotype)
+			if sc.Winners > 0 {
+				o.IsWinner = int(unitHash(sc.Fit.Salt, int64(e), int64(i), 77)*1000)%sc.Winners == 0
+			}
 		}
 	}
 	for e := 0; e < sc.Epochs-1; e++ {
